@@ -57,8 +57,28 @@ class KnownFindings(object):
         return None
 
 
+CURRENT = [None]          # the Run of this process (so that obligations already refuted are still reported if the checker crashes later)
+
+
+def finish_after_crash(exc_text):
+    """The checker crashed (an engine limit met in code it had not seen): obligations refuted before the crash are still violations and
+    are reported as such; without any the crash stays a crash (exit 3, never a violation)."""
+    R = CURRENT[0]
+    if R is None:
+        return 3
+    R.notes.append("checker crashed after generating %d obligations: %s" % (sum(len(r.obligations) for r in R.registries), exc_text[-600:]))
+    refuted = [o for r in R.registries for o in r.obligations if not o.discharged and o.result == "sat" and o.kind not in ("cover", "bounded") and not R.kf.match(R.pid, o.name)]
+    if not refuted:
+        return 3
+    for ob in refuted[:10]:
+        R.violation(ob, R.write_replay(ob, dict(identity=ob.detail, note="reported after a later part of the checker crashed", native=dict(witness=None))), False)
+    rc = R.finish()
+    return 1 if rc in (1, 2, 3) and R.violations else 3
+
+
 class Run(object):
     def __init__(self, pid, level, tier=None, design_ref=None):
+        CURRENT[0] = self
         self.pid = pid
         self.level = level
         self.tier = tier or os.environ.get("VERIF_TIER", "quick")
